@@ -4,7 +4,7 @@
     reached from any top-level call or creation by any number of steps. *)
 From Coq Require Import List ZArith NArith Bool.
 From Kardia Require Import C10.U256 C10.EVM C10.ProofsArith C10.ProofsTables C10.ProofsInv C10.ProofsFrames
-  C10.ProofsStatic C10.ProofsGas C10.ProofsTerm Generated.C10Facts.
+  C10.ProofsStatic C10.ProofsGas C10.ProofsTerm C10.ProofsBal C10.ProofsExamples C10.ToC09 Generated.C10Facts.
 Import ListNotations.
 Local Open Scope Z_scope.
 
@@ -136,6 +136,33 @@ Theorem C10_total_create : forall keccak blockhash e w init g v, 0 <= g < 2 ^ 64
     is_final (run_create keccak blockhash e w init g v) = true.
 Proof. exact run_create_terminates. Qed.
 Print Assumptions C10_total_create.
+
+(** the contract that C09's model of transaction execution assumes of the VM ([ExecOK]: gas left
+    between 0 and the gas given; balance deltas sum to minus the self-destruct burn, which is
+    non-negative; refund and return length non-negative; the origin's nonce and self-destruct mark
+    untouched) holds for the C10 interpreter wrapped as C09's [run] (ToC09.run10), for every
+    concretisation of C09's abstract state — so C09's theorems hold for the C10 model *)
+Theorem C10_exec_ok : forall keccak blockhash U code_of_id stor_of_id id_of_code id_of_stor input_of env_of,
+    Kardia.C09.ProofsVM.ExecOK (run10 keccak blockhash U code_of_id stor_of_id id_of_code id_of_stor input_of env_of).
+Proof. exact run10_exec_ok. Qed.
+Print Assumptions C10_exec_ok.
+
+(** balances: in every configuration reached from one where all balances are non-negative and the
+    origin is an externally owned account, no balance is negative, the origin keeps its nonce and
+    has no code, and the sum of all balances is at most the initial one ([INVB]) *)
+Theorem C10_balances_invariant : forall keccak blockhash origin n0, n0 <> 0 ->
+    forall T0 e n c, INVB origin n0 T0 c -> INVB origin n0 T0 (run_n keccak blockhash e n c).
+Proof. exact run_n_B. Qed.
+Print Assumptions C10_balances_invariant.
+
+(** return data of the identity precompile is a COPY of its input (EVM specification): the model
+    returns 0x11..11 on [identity_program]; the real KVM returns 0x22..22 (known finding
+    kvm-identity-returndata-aliased, see ProofsExamples.v) *)
+Theorem C10_identity_returndata_is_a_copy :
+  exists g, c_status (run_call (fun _ => 0) (fun _ => 0) ex_env ex_world 49374 [] 100000 0)
+            = Final OOk (word_bytes 7719472615821079694904732333912527190217998977709370935963838933860875309329) g.
+Proof. exact identity_returndata_is_a_copy. Qed.
+Print Assumptions C10_identity_returndata_is_a_copy.
 
 (** arithmetic against the mathematical definitions *)
 Theorem C10_sdiv_spec : forall a b, is_word a -> is_word b -> b <> 0 ->
